@@ -1,11 +1,15 @@
 //! C05 — AEAD additional data is exactly RFC 8152 Enc_structure.
 
 use crate::cbor::hex_trunc;
+use crate::cbor::{diag, StyleOpts};
+use crate::gen::{gen_msg, Faults};
+use crate::model::{m_msg, Kind, MCtx, MMsg};
+use crate::props::common::styled;
 use crate::props::structs::*;
 use crate::run::{hash_bytes, no_exh_case, no_exh_count, CaseResult, Ctx, Property};
 use crate::tape::Gen;
 use coset::{
-    enc_structure_data, CoseEncrypt, CoseEncrypt0, CoseEncrypt0Builder, CoseEncryptBuilder, CoseRecipient, CoseRecipientBuilder,
+    enc_structure_data, CborSerializable, CoseEncrypt, CoseEncrypt0, CoseEncrypt0Builder, CoseEncryptBuilder, CoseRecipient, CoseRecipientBuilder,
     EncryptionContext, Header,
 };
 use std::cell::RefCell;
@@ -23,7 +27,77 @@ fn expect_eq(what: &str, got: &[u8], want: &[u8]) -> CaseResult {
     Ok(())
 }
 
+/// Recipients decoded as part of a whole carrier: the additional data of each uses the bytes its
+/// own protected header arrived in.
+fn check_wire_recipients(rs: &[CoseRecipient], ms: &[MMsg], aad: &[u8], g: &mut Gen, path: &str) -> CaseResult {
+    ensure!(rs.len() == ms.len(), "{}: {} recipients decoded, {} on the wire", path, rs.len(), ms.len());
+    for (i, (r, m)) in rs.iter().zip(ms.iter()).enumerate() {
+        let c = 2 + g.below(3);
+        let w = m.protected.wire.clone().unwrap_or_default();
+        let want = ref_enc_structure(ENC_CONTEXTS[c], &w, aad);
+        expect_eq(&format!("{}/recipient {}: enc_structure_data", path, i), &enc_structure_data(CTXS[c], r.protected.clone(), aad), &want)?;
+        if r.ciphertext.is_some() {
+            let mut seen = (vec![], vec![]);
+            let _: Result<Vec<u8>, u8> = r.decrypt(CTXS[c], aad, |ct, a| {
+                seen = (ct.to_vec(), a.to_vec());
+                Ok(vec![])
+            });
+            ensure!(Some(&seen.0) == m.content.as_ref(), "{}/recipient {}: decrypt handed over a ciphertext other than the received one", path, i);
+            expect_eq(&format!("{}/recipient {}: decrypt", path, i), &seen.1, &want)?;
+        }
+        check_wire_recipients(&r.recipients, &m.nested, aad, g, &format!("{}/recipient {}", path, i))?;
+    }
+    Ok(())
+}
+
+/// A whole carrier decoded from styled wire bytes (any unprotected header, any nesting), then decrypted.
+fn wire_carrier_case(g: &mut Gen, ctx: &mut Ctx) -> CaseResult {
+    let kind = *g.pick(&[Kind::Encrypt, Kind::Encrypt0, Kind::Recipient]);
+    let depth = g.below(3);
+    let item = gen_msg(g, kind, &mut Faults::none(), depth);
+    let (bytes, enc) = styled(&item, g, StyleOpts::ALL);
+    let mut mc = MCtx::default();
+    let m = match m_msg(kind, &enc, &mut mc) {
+        Ok(m) => m,
+        Err(_) => return Ok(()),
+    };
+    let aad = gen_class_bytes(g);
+    ctx.classf(format!("wire-carrier:{}", kind.name()));
+    ctx.nontrivial(hash_bytes(&[&b"w"[..], &bytes, &aad].concat()));
+    ctx.sample_with(|| format!("whole {} decoded from {} then decrypted, aad {}B", kind.name(), hex_trunc(&bytes, 48), aad.len()));
+    let w = m.protected.wire.clone().unwrap_or_default();
+    let rejected = |e: coset::CoseError| if mc.unspecified { String::new() } else { format!("valid {} rejected: {:?} ({})", kind.name(), e, diag(&item)) };
+    match kind {
+        Kind::Encrypt => {
+            let v = match CoseEncrypt::from_slice(&bytes) { Ok(v) => v, Err(e) => { let r = rejected(e); return if r.is_empty() { Ok(()) } else { Err(r) } } };
+            let want = ref_enc_structure("Encrypt", &w, &aad);
+            if v.ciphertext.is_some() {
+                let mut seen = vec![];
+                let _: Result<Vec<u8>, u8> = v.decrypt(&aad, |_, a| { seen = a.to_vec(); Ok(vec![]) });
+                expect_eq("whole COSE_Encrypt: decrypt", &seen, &want)?;
+            }
+            check_wire_recipients(&v.recipients, &m.nested, &aad, g, "COSE_Encrypt")
+        }
+        Kind::Encrypt0 => {
+            let v = CoseEncrypt0::from_slice(&bytes).map_err(|e| format!("valid COSE_Encrypt0 rejected: {:?}", e))?;
+            if v.ciphertext.is_some() {
+                let mut seen = vec![];
+                let _: Result<Vec<u8>, u8> = v.decrypt(&aad, |_, a| { seen = a.to_vec(); Ok(vec![]) });
+                expect_eq("whole COSE_Encrypt0: decrypt", &seen, &ref_enc_structure("Encrypt0", &w, &aad))?;
+            }
+            Ok(())
+        }
+        _ => {
+            let v = match CoseRecipient::from_slice(&bytes) { Ok(v) => v, Err(e) => { let r = rejected(e); return if r.is_empty() { Ok(()) } else { Err(r) } } };
+            check_wire_recipients(std::slice::from_ref(&v), std::slice::from_ref(&m), &aad, g, "COSE_recipient")
+        }
+    }
+}
+
 fn case(g: &mut Gen, ctx: &mut Ctx) -> CaseResult {
+    if g.ratio(1, 4) {
+        return wire_carrier_case(g, ctx);
+    }
     let prot = gen_prot(g, ctx)?;
     let aad = gen_class_bytes(g);
     let plaintext = g.small_bytes();
